@@ -382,7 +382,7 @@ struct_unit("asm.asm1.depth-guard", ["CLOSURES"], ":closures / :defs are",
             bound_extra="; the assembler has exactly JANET_RECURSION_GUARD (1024) assemblers above it: the description is refused before any nested definition is assembled",
             fixed="fixed: /repo f4335f4 - " + FIND_DEPTH, extra={"unwindset": DEPTH_UNWINDSET, "cbmc": ["--max-field-sensitivity-array-size", "1100"]})
 struct_unit("asm.asm1.depth-guard.below", ["CLOSURES"], ":closures / :defs are",
-            [M("depth-guard-too-strict", "        janet_asm_assert(&a, depth < JANET_RECURSION_GUARD, \"recursed too deeply\");", "        janet_asm_assert(&a, depth < JANET_RECURSION_GUARD - 1, \"recursed too deeply\");", "REACH|nested")],
+            [M("nested-with-grandparent", "            subres = janet_asm1(&a, arr[i], flags);", "            subres = janet_asm1(a.parent, arr[i], flags);", "with this assembler as its parent"), M_NO_VERIFY],
             extra_def=["-DAS_DEPTH_GUARD", "-DAS_DEPTH=1023"],
             bound_extra="; the assembler has exactly JANET_RECURSION_GUARD - 1 (1023) assemblers above it: nested definitions are still assembled (REACH: nested assembly raises / returns)",
             extra={"unwindset": DEPTH_UNWINDSET, "cbmc": ["--max-field-sensitivity-array-size", "1100"]})
